@@ -22,6 +22,7 @@ LEVEL_ASSUMPTIONS = [
     "ea1p1_revn.rev_if_not_worse / fea1p1_revn.rev_if_h_not_worse that "
     "solve() looks up at call time (zero wrapper calls => inconclusive)"]
 REQUIRED = {"same_name_sibling_histories": 20,
+            "big_direct_long_segments_accepted": 4,
             "created_points_with_arbitrary_contents": 20,
             "runs_with_entries_above_2^31": 10, "kernel_calls_ea": 5000,
             "kernel_calls_fea": 5000,
@@ -354,12 +355,75 @@ def direct_all_ij(ctx, m):
                         "direct-drive instance with n <= 8")
 
 
+def direct_big(ctx, rng):
+    """The move kernels on tours of 2^11 / 2^12 cities (long segments),
+    driven directly on a numpy-built symmetric matrix; exact lengths by
+    numpy."""
+    import moptipyapps.tsp.ea1p1_revn as ea
+    import moptipyapps.tsp.fea1p1_revn as fea
+    k_ea = getattr(ea, "_verif_orig", None) or ea.rev_if_not_worse
+    k_fea = getattr(fea, "_verif_orig", None) or fea.rev_if_h_not_worse
+    n = int(rng.choice([2049, 2051, 2100] + (
+        [4097, 4100] if ctx.tier == "thorough" else [])))
+    a = rng.integers(1, 40, (n, n), dtype=np.int64)
+    m = np.triu(a, 1)
+    m = m + m.T
+    ub = int(m.max(axis=1).sum())
+
+    def length(x):
+        xi = x.astype(np.int64)
+        return int(m[np.roll(xi, 1), xi].sum())
+
+    x = rng.permutation(n).astype(np.int64)
+    y = length(x)
+    h = np.zeros(ub + 1, np.int64)
+    for t in range(60):
+        if t % 3 == 0:
+            ln = int(rng.choice([2047, 2048, 2049, 2050, n - 3]))
+            ln = min(ln, n - 3)
+            i = int(rng.integers(0, n - 1 - ln))
+            j = i + ln
+        else:
+            i, j = sorted(int(v) for v in rng.choice(n - 1, 2, replace=False))
+            if i == 0 and j == n - 2:
+                continue
+        before = x.copy()
+        fea_turn = t % 2 == 1
+        ctx.case()
+        ctx.count("big_direct_moves")
+        r = k_fea(i, j, n, m, h, x, y) if fea_turn else k_ea(i, j, n, m, x, y)
+        changed = not np.array_equal(before, x)
+        if changed:
+            want = before.copy()
+            want[i:j + 1] = want[i:j + 1][::-1]
+            ctx.count("big_direct_moves_accepted")
+            if j - i >= 2047:
+                ctx.count("big_direct_long_segments_accepted")
+            if not np.array_equal(want, x):
+                ctx.violation(
+                    "kernel-move-is-not-the-reversal",
+                    f"{'fea' if fea_turn else 'ea'} kernel, n={n}, i={i}, "
+                    f"j={j}: the tour is not the reversal of the segment",
+                    ctx.shard_replay_case(what="direct_big"))
+                return
+        ln_now = length(x)
+        if int(r) != ln_now:
+            ctx.violation(
+                f"{'fea' if fea_turn else 'ea'}-kernel-length-drift",
+                f"n={n}, move ({i},{j}): kernel returned {int(r)}, the tour "
+                f"has length {ln_now}",
+                ctx.shard_replay_case(what="direct_big"))
+            return
+        y = int(r)
+
+
 SHIPPED_SMALL = ("burma14", "ulysses16", "gr17", "gr21", "ulysses22", "gr24",
                  "fri26", "bayg29", "bays29")
 
 
 def run_shard(ctx, args):
     rng = ctx.rng
+    direct_big(ctx, rng)
     for it in range(args["n"]):
         mode = it % 10
         if mode == 0:
